@@ -135,6 +135,12 @@ def havoc_for_loop(ev: Ev, body_stmts, extra_names=(), loop_no=0):
                         if isinstance(o, ListObj):
                             if meth in MUTATING_LIST:
                                 note_obj(recv)
+                        elif isinstance(o, Obj) and isinstance(o.fields.get(meth), VFunc):
+                            fn_ = o.fields[meth]
+                            if fn_.kind == "py":
+                                ghost_mods.update(getattr(fn_.data, "mods", ()) or ())
+                            else:
+                                havoc_all = True
                         elif isinstance(o, Obj):
                             eff = ev.registry.method_effects(ev, recv, meth) if ev.registry else None
                             if eff is None:
